@@ -117,13 +117,12 @@ Creat(p) == /\ pc[p] = "creat" /\ tmp' = [tmp EXCEPT ![p].out = -1] /\ Goto(p, "
 Write(p) == /\ pc[p] = "write" /\ tmp' = [tmp EXCEPT ![p].out = CurV(p)] /\ Goto(p, "close")
             /\ UNCHANGED <<fin, loc, res>> /\ Step(p, "write")
 Close(p) == /\ pc[p] = "close" /\ UNCHANGED <<fin, tmp, loc, res>> /\ Step(p, "close")
-            /\ Goto(p, IF "dir_remove_then_rename" \in Deviations THEN "scan" ELSE "rename")
+            /\ Goto(p, IF "dir_remove_then_rename" \notin Deviations THEN "rename"
+                       ELSE IF "dir_delete_in_place" \in Deviations THEN "scan" ELSE "away")
 \* _rmdir(final): scandir; unlink each listed file; rmdir - every error ignored
 Scan(p) == /\ pc[p] = "scan" /\ UNCHANGED <<fin, tmp, loc, res>> /\ Step(p, "scandir")
-           /\ Goto(p, IF ~fin[CurK(p)].ex THEN "rename"
-                      ELSE IF "dir_delete_in_place" \notin Deviations THEN "away"
-                      ELSE IF fin[CurK(p)].out # 0 THEN "unlink" ELSE "rmdir")
-\* (the old entry is renamed to a staging name in one step, and removed from there)
+           /\ Goto(p, IF ~fin[CurK(p)].ex THEN "rename" ELSE IF fin[CurK(p)].out # 0 THEN "unlink" ELSE "rmdir")
+\* _rmpath: the old entry (if any) is renamed to a staging name in one step, and removed from there (not visible)
 Away(p) == /\ pc[p] = "away" /\ fin' = [fin EXCEPT ![CurK(p)] = NoDir] /\ Goto(p, "rename")
            /\ UNCHANGED <<tmp, loc, res>> /\ Step(p, "rename-away")
 Unlink(p) == /\ pc[p] = "unlink" /\ fin' = [fin EXCEPT ![CurK(p)].out = 0] /\ Goto(p, "rmdir")
